@@ -108,9 +108,9 @@ Sigma == (IF Scope = "pairs" THEN SigmaPairs ELSE IF Scope = "extras" THEN Sigma
 F1 == {FF(Fn_f1), FF(Fn_fodd), FF(Fn_ferr), AF(Fn_g1), AF(Fn_gerr)}
 F2 == {FF(Fn_f2), AF(Fn_g2), FF(Fn_f3)}
 FSeqsSmall == { <<FF(Fn_f1)>>, <<AF(Fn_g1)>>, <<FF(Fn_ferr)>>, <<AF(Fn_gerr)>>, <<FF(Fn_fodd), FF(Fn_ferr)>>,
-                <<FF(Fn_fodd), FF(Fn_f2), AF(Fn_g2)>>, <<AF(Fn_g1), AF(Fn_g2)>>, <<AF(Fn_g1), FF(Fn_f2)>> }
+                <<FF(Fn_fodd), FF(Fn_f2), AF(Fn_g2)>>, <<AF(Fn_gid), AF(Fn_g2)>>, <<AF(Fn_g1), FF(Fn_f2)>>, <<AF(Fn_gid)>> }
 FSeqsFull == {<<FF(Fn_fodd), FF(Fn_ferr)>>} \cup {<<x>> : x \in F1} \cup {<<x, y>> : x \in F1, y \in F2}
-         \cup {<<FF(Fn_f1), AF(Fn_g1), FF(Fn_f2)>>, <<AF(Fn_g1), AF(Fn_g2), FF(Fn_f3)>>, <<FF(Fn_fodd), FF(Fn_f2), AF(Fn_g2)>>}
+         \cup {<<AF(Fn_gid)>>, <<AF(Fn_gid), AF(Fn_g2)>>, <<FF(Fn_f1), AF(Fn_g1), FF(Fn_f2)>>, <<AF(Fn_g1), AF(Fn_g2), FF(Fn_f3)>>, <<FF(Fn_fodd), FF(Fn_f2), AF(Fn_g2)>>}
 FSeqs == IF FuncSet = "small" THEN FSeqsSmall ELSE FSeqsFull
 
 AllSp == [q : {39, 34}, brk : BOOLEAN, spc : {0, 1}, omit : BOOLEAN, plus : BOOLEAN, up : BOOLEAN]
